@@ -31,7 +31,7 @@ import (
 
 func main() {
 	if len(os.Args) < 2 {
-		fmt.Fprintln(os.Stderr, "usage: c02counts corr|oracle|replay|probe ...")
+		fmt.Fprintln(os.Stderr, "usage: c02counts corr|oracle|replay ...")
 		os.Exit(2)
 	}
 	switch os.Args[1] {
@@ -41,8 +41,6 @@ func main() {
 		oracle(os.Args[2:])
 	case "replay":
 		replay(os.Args[2:])
-	case "probe":
-		probe(os.Args[2:])
 	default:
 		os.Exit(2)
 	}
